@@ -1,10 +1,26 @@
 """C05 - each Step makes exactly the instruction's memory and port accesses, nothing else."""
 from lib import cpucheck
+from lib import cases
 PROP = "C05"
+
+def edge_search(rng, tier):
+    """every dispatch case x the flag / counter values on which taken-or-not decisions depend"""
+    lines, meta, k = [], {}, 0
+    for e in cases.encodings():
+        for f, b in ((0x00, 1), (0xFF, 1), (0x40, 0), (0x01, 2), (0x04, 1), (0x80, 0), (0x45, 255), (0xBA, 1)):
+            cid = "e%d" % k; k += 1
+            l = cases.patch_state(cases.make_case(rng, cid, e), F=f, B=b, C=rng.choice([0, 1, 2]))
+            lines.append(l); meta[cid] = (e[0], "%02X" % e[1])
+    l2, m2 = cpucheck.std_gen(None, per_quick=20, per_thorough=60)(rng, tier)
+    for l in l2:
+        t = l.split(" ", 2)
+        lines.append(t[0] + " R" + t[1] + " " + t[2])
+    meta.update({"R" + k_: v for k_, v in m2.items()})
+    return lines, meta
 KEEP = cpucheck.fields("accesses", "NTRACE", "event")
 def run(tier, seed):
     return cpucheck.run(PROP, tier, seed, cpucheck.std_gen(None, per_quick=3, per_thorough=60), keep=KEEP,
-                        search_lines=cpucheck.std_gen(None, per_quick=10, per_thorough=30),
+                        search_lines=edge_search,
                         rule="all dispatch cases x structured random states; the complete ordered access log (reads, writes, port in/out with "
                              "addresses and values) of the real code vs the extracted generated model")
 def replay(path):
